@@ -202,6 +202,12 @@ def tag_heavy(gen, rnd):
             r.merchant = 'TagOnly Merchant'
         if rnd.random() < .2:
             r.match = rnd.choice(MATCH_ALL)
+    if len(rf.rules) >= 2 and rnd.random() < .3:
+        # section names are labels, not keys: several [Amazon] blocks are several rules, each contributing its own tags
+        a, b = rnd.sample(range(len(rf.rules)), 2)
+        rf.rules[b].name = rf.rules[a].name
+        if rnd.random() < .5:
+            rf.rules[b].match = rf.rules[a].match
     return rf
 
 
